@@ -62,7 +62,7 @@ def bgzf_members(path):
     return n
 
 
-def text_variant(lines, rng, sit, bom=True):
+def text_variant(lines, rng, sit, bom=True, blank_p=0.3):
     """text-level variants every reader accepts today: CRLF line ends and/or a non-ASCII (multi-byte
     UTF-8) character in an optional field; the same bytes go into the plain and the BGZF copies"""
     if bom and lines and rng.random() < 0.2:
@@ -70,7 +70,7 @@ def text_variant(lines, rng, sit, bom=True):
         # every reader; whatever is done with it must not depend on the compression
         lines = ["\ufeff" + lines[0]] + list(lines[1:])
         sit["text_variant_bom"] += 1
-    if lines and rng.random() < 0.12:
+    if lines and rng.random() < blank_p:
         # records ending in a blank or a TAB (paste / awk pipelines): whatever a command does with the
         # trailing white space, it must do the same for every compression of the same bytes
         lines = list(lines)
@@ -286,7 +286,7 @@ def run_case(ctx, rng, index, casedir):
             all_equal(res, viol, "phased records", sub)
     elif sub == "sort":
         w = SC.build(rng, casedir, index, nrec=nrec, mode="plain", text_variants=False)
-        w.lines = align_to_64k(text_variant(w.lines, rng, sit), rng, sit)
+        w.lines = align_to_64k(text_variant(w.lines, rng, sit, blank_p=0.6), rng, sit)
         cfgs = write_configs(casedir, w.lines, lambda p: w.g.write(p, bo_no=w.tags, rng=rng), rng, sit)
         res, idxres = [], []
         out_bgzip = rng.random() < 0.5  # the same output mode for every input configuration of the case
